@@ -772,6 +772,45 @@ func genC14(o *hx.Out, tier string) {
 		}
 	}
 
+	// (6b) the idle time-out left unset while the read time-out is set (to 100 ms): the channel of a TCP
+	// server that hears one frame a second is still open after two seconds (idle expiry is 60 s by default,
+	// whatever the read time-out is)
+	{
+		addr := fmt.Sprintf("127.0.0.1:%d", base+19)
+		node, err := gomavlib.NewNode(gomavlib.NodeConf{Endpoints: []gomavlib.EndpointConf{gomavlib.EndpointTCPServer{Address: addr}}, Dialect: d,
+			OutVersion: gomavlib.V2, OutSystemID: 10, HeartbeatDisable: true, ReadTimeout: 100 * time.Millisecond})
+		verdict := "ok"
+		if err != nil {
+			verdict = "NODE-FAILED"
+		} else {
+			col := scn.NewCollector(node, 0, false)
+			peer, err := net.Dial("tcp4", addr)
+			if err != nil {
+				verdict = "DIAL-FAILED"
+			} else {
+				for i := 0; i < 3; i++ {
+					peer.Write(frameB) //nolint:errcheck
+					time.Sleep(900 * time.Millisecond)
+				}
+				nf, nc := 0, 0
+				for _, ch := range col.Channels() {
+					nf += countFrames(col.Events(ch))
+					for _, e := range col.Events(ch) {
+						if _, ok := e.(*gomavlib.EventChannelClose); ok {
+							nc++
+						}
+					}
+				}
+				if nc != 0 || nf != 3 || len(col.Channels()) != 1 {
+					verdict = fmt.Sprintf("CHANNEL-CLOSED-WHILE-RECEIVING %d close events, %d frames of 3, %d channels", nc, nf, len(col.Channels()))
+				}
+				peer.Close()
+			}
+			scn.CloseWithin(node, 10*time.Second)
+		}
+		o.Add("idle time-out unset, read time-out 100 ms", verdict, "expect", "ok", "idle-default-independent")
+	}
+
 	// (7) a healthy link stays open through input that is refused: a TCP client channel receives valid
 	// frames, junk, frames with a wrong checksum and v1 frames of a dialect message whose checksum is
 	// right but whose payload has the wrong length; each is a parse error, the channel is not closed
